@@ -427,14 +427,19 @@ def c02_r1_register_atomic(ctx):
     f = ctx.fn(TT + '::register_read_transaction')
     if f is None:
         return
-    g = ctx.sites(f, TM + '::get_last_committed_transaction_id', exact=1)
+    # the id (and, since the repair of the reader-registration race, the root) of the latest commit: one call
+    SNAP = [TM + '::get_last_committed_snapshot', TM + '::get_last_committed_transaction_id']
+    g = ctx.sites(f, SNAP, exact=1)
     e = ctx.sites(f, 'BTreeMap::entry', exact=1)
     ctx.held(f, g + e, 'self.state')
     locks = ctx.sites(f, 'Mutex::lock', exact=1)
     ctx.order(f, g, e, 'id read before the registration')
     for p in e:
-        ctx.flows(f, p, 1, from_call=TM + '::get_last_committed_transaction_id', what='the registered id is the id just read')
-    ctx.guarded(f, e, [ok(TM + '::get_last_committed_transaction_id')])
+        ok_ = core.flows_from_call(f, p.call.t['a'][1], SNAP[0]) or core.flows_from_call(f, p.call.t['a'][1], SNAP[1])
+        ctx._ob(bool(ok_), ctx.sample('arg-flow', f, p.line, 'the registered id is the id just read'))
+        if not ok_:
+            ctx.violate('arg-flow|%s|registered-id' % f.path, 'the id registered in live_read_transactions is not the id just read from TransactionalMemory', f, p.line)
+    ctx.guarded(f, e, [ok(SNAP[0]), ok(SNAP[1])])
     # returns that id
     rets = [1]
     # get_last_committed_transaction_id reads latest_slot under the TM.state lock
@@ -442,7 +447,7 @@ def c02_r1_register_atomic(ctx):
     if h is not None:
         ls = ctx.sites(h, 'InMemoryState::latest_slot', exact=1)
         ctx.held(h, ls, 'self.state')
-    for nm in ('get_data_root', 'get_system_root'):
+    for nm in ('get_data_root', 'get_system_root', 'get_last_committed_snapshot'):
         h = ctx.fn(TM + '::' + nm)
         if h is not None:
             ls = ctx.sites(h, 'InMemoryState::latest_slot', exact=1)
@@ -481,10 +486,10 @@ def c02_r2_register_before_root(ctx):
             ctx.flows(f, p, 0, from_call=TT + '::register_read_transaction', what='guard carries the registered id')
     f = ctx.fn('ReadTransaction::new')
     if f is not None:
-        gr = ctx.sites(f, TM + '::get_data_root', exact=1)
+        # the root is handed in by the creator, who got it from the registration (C02.R12 checks that half)
         tt = ctx.sites(f, 'TableTree::new', exact=1)
         for p in tt:
-            ctx.flows(f, p, 0, from_call=TM + '::get_data_root')
+            ctx.flows(f, p, 0, from_arg='root_page', what='the table tree is built from the root that belongs to the guard')
             ctx.flows(f, p, 2, from_arg='guard', what='the table tree owns the transaction guard')
     ctx.callers_eq('ReadTransaction::new', {'<Database as ReadableDatabase>::begin_read', '<ReadOnlyDatabase as ReadableDatabase>::begin_read'},
                    allow_missing=({'<ReadOnlyDatabase as ReadableDatabase>::begin_read'} if ctx.cfg == 'N' else ()))
@@ -5159,3 +5164,41 @@ def oldest_search_rules(ctx):
             ctx.violate('shape|%s|%s' % (f.path, nm), '`%s` uses %s: the oldest qualifying entry is the first match of a front-to-back search over every entry' % (last, nm), g, c.line)
         ctx.held(f, [cpoint(c) for c in f.calls if (c.declared or c.callee or '').split('::')[-1] in ('keys', 'iter', 'first_key_value', 'range')][:1], TTSTATE)
     ctx.check(n >= 3, 'floor|oldest-queries', 'oldest_* tracker queries analysed: %d' % n)
+
+
+def snapshot_atomic_rules(ctx):
+    """A reader is registered under the id of the latest commit and then reads a data root.  The id decides
+    which freed records may be processed while the reader lives; the root decides which pages it touches.
+    If the two are read in separate critical sections, a commit landing in between leaves the reader
+    registered under the previous id while it reads the new root -- and the non-durable free horizon, which
+    only counts readers registered on pending non-durable commits, then releases pages it is using."""
+    ctx.set_rule('C02.R12', 'the id a reader is registered under and the data root it reads are taken in one critical section')
+    f = ctx.fn(TT + '::register_read_transaction')
+    g = ctx.fn('ReadTransaction::new')
+    h = None
+    if f is not None:
+        tmc = [c for c in f.calls if (c.callee or '').startswith('tree_store::page_store::page_manager::TransactionalMemory::') and not f.blocks[c.bb]['c']]
+        gives_root = 'BtreeHeader' in (f.d.get('ret') or '')
+        ok_ = len(tmc) == 1 and gives_root
+        ctx._ob(ok_, ctx.sample('shape', f, f.line, 'the reader\'s id and root come from one call into TransactionalMemory and are returned together'))
+        if not ok_:
+            ctx.violate('atomic|%s|id-without-root' % f.path, 'register_read_transaction does not return the data root together with the id it registers (TransactionalMemory calls: %d, returns a root: %s): the root is then read in a separate critical section, so a commit can land between the two' % (len(tmc), gives_root), f, f.line)
+        ctx.held(f, [cpoint(c) for c in tmc][:1], TTSTATE)
+        if len(tmc) == 1:
+            h = ctx.facts.fns.get(tmc[0].resolved or tmc[0].callee)
+    if g is not None:
+        own = [c for c in g.calls if c.matches((TM + '::get_data_root', TM + '::get_system_root', TM + '::get_last_committed_transaction_id'))]
+        ctx._ob(not own, ctx.sample('shape', g, g.line, 'ReadTransaction::new is handed the root that belongs to its guard'))
+        if own:
+            ctx.violate('atomic|%s|reads-root-itself' % g.path, 'ReadTransaction::new reads the data root itself, after (and not atomically with) the registration of the reader under a transaction id', g, own[0].line)
+    if h is not None:
+        ctx.sites(h, 'Mutex::lock', exact=1)
+        ctx.held(h, ctx.sites(h, 'InMemoryState::latest_slot', floor=1), 'self.state')
+    # every creator of a ReadTransaction passes on the root it got from the registration
+    for path, sites in sorted(ctx.facts.callers_of('ReadTransaction::new', root=False).items()):
+        for c in sites:
+            if len(c.t['a']) >= 3:
+                ok_ = core.flows_from_call(c.fn, c.t['a'][2], TT + '::register_read_transaction') or core.flows_from_call(c.fn, c.t['a'][2], 'TransactionGuard::allocate_read')
+                ctx._ob(bool(ok_), ctx.sample('arg-flow', c.fn, c.line, 'the root handed to ReadTransaction::new comes from the registration'))
+                if not ok_:
+                    ctx.violate('arg-flow|%s|root-not-from-registration' % c.fn.path, 'the root passed to ReadTransaction::new does not come from the registration of the reader', c.fn, c.line)
